@@ -123,12 +123,33 @@ def run_case(kind, q):
             zarg = None if zs is None else (np.asarray(zs, dtype=np.float64) if np.ndim(zs) == 1 else
                                             FastCorrelationUDF.aux_data(np.asarray(zs), kind="nav", extra_shape=(2,), dtype=np.float64))
             ds = MemoryDataSet(frames)
+            # observe which correlation UDF actually does the work ("dispatches to the requested correlation method")
+            import libertem_blobfinder.udf.correlation as ucorr
+            ran = set()
+            saved = {}
+            for cname_, cls_, meth_ in (("fast", ucorr.FastCorrelationUDF, "process_frame"),
+                                        ("fullframe", ucorr.FullFrameCorrelationUDF, "process_frame"),
+                                        ("sparse", ucorr.SparseCorrelationUDF, "process_tile")):
+                orig_ = cls_.__dict__[meth_]
+                saved[(cls_, meth_)] = orig_
+
+                def mk(orig_=orig_, cname_=cname_):
+                    def wrapped(self, *a_, **k_):
+                        ran.add(cname_)
+                        return orig_(self, *a_, **k_)
+                    return wrapped
+                setattr(cls_, meth_, mk())
             try:
                 res, used = run_refine(Context(partitions=q["partitions"]), ds, zero=zero_arg, a=a_arg, b=b_arg,
                                        match_pattern=pat, matcher=matcher, correlation=corr_name, match=q["match"],
                                        indices=indices, steps=3, zero_shift=zarg)
             except Exception as e:
                 return [f"run_refine({corr_name}, {q['match']}) raised {type(e).__name__}: {e}"]
+            finally:
+                for (cls_, meth_), orig_ in saved.items():
+                    setattr(cls_, meth_, orig_)
+            if ran != {corr_name}:
+                msgs.append(f"run_refine(correlation={corr_name!r}) ran the correlation method(s) {sorted(ran)}")
             if q["zero_as"] == "ndarray" and not np.array_equal(zero_arg, zero0):
                 msgs.append(f"run_refine modified the caller's zero array: {zero0.tolist()} -> {np.asarray(zero_arg).tolist()}")
             want_idx, want_peaks = frame_peaks(fy=q["shape"][0], fx=q["shape"][1], zero=zero0, a=a0, b=b0, r=pat.search,
@@ -184,6 +205,11 @@ def run_case(kind, q):
             shape = tuple(q["shape"])
             frames = rng.poisson(20, (q["nframes"],) + shape).astype(q["dtype"])
             pat = impl.pattern_from(q["pattern"])
+            if q.get("asym"):
+                from libertem_blobfinder.common import patterns as pt_
+                c0 = pat.get_crop_size()
+                tmpl = np.random.default_rng(q["seed"] + 5).uniform(0, 1, (2 * c0 - 1, 2 * c0 + 1)).astype(np.float32)
+                pat = pt_.UserTemplate(template=tmpl, search=float(c0))
             c = pat.get_crop_size()
             centers = np.asarray(q["centers"], dtype=np.int64)
             aux = IntegrationUDF.aux_data(centers, kind="nav", extra_shape=centers.shape[1:], dtype=np.int64)
@@ -221,6 +247,6 @@ def search(ctx, boost=1, focus=()):
         nfr, npk = int(rng.integers(1, 7)), int(rng.integers(1, 5))
         centers = np.stack([rng.integers(-2 * c, shape[0] + 2 * c, (nfr, npk)), rng.integers(-2 * c, shape[1] + 2 * c, (nfr, npk))], axis=-1)
         q = {"seed": int(rng.integers(1 << 30)), "pattern": pat, "shape": shape, "nframes": nfr, "centers": centers.tolist(),
-             "partitions": partitions_of(rng, nfr), "dtype": ["float32", "uint16", "float64"][k % 3]}
+             "partitions": partitions_of(rng, nfr), "dtype": ["float32", "uint16", "float64"][k % 3], "asym": k % 2 == 1}
         ctx.oracle_case("integration", q, run_case("integration", q), nontrivial=nfr > 1)
         ctx.count("integration")
